@@ -225,7 +225,9 @@ func newC18Server(scn *c18Scn) (*c18Server, error) {
 			a := lime.InProcessAddr(fmt.Sprintf("c18-%d-%d", os.Getpid(), i))
 			s.inprocAd = a
 			s.addrs = append(s.addrs, a)
-			ls = append(ls, lime.NewBoundListener(lime.NewInProcessTransportListener(a), a))
+			// (the listener is constructed with one address and bound to another: the address it serves is the one
+			// Listen is given)
+			ls = append(ls, lime.NewBoundListener(lime.NewInProcessTransportListener("made-for-"+a), a))
 		case "tcp":
 			a, err := freeTCPAddr()
 			if err != nil {
